@@ -50,7 +50,8 @@ class BitStore:
 
     def __init__(self, initializer: Union[int, bitarray.bitarray, str, None] = None,
                  immutable: bool = False) -> None:
-        self._bitarray = bitarray.bitarray(initializer)
+        # The storage is always big-endian: a little-endian bitarray initialiser keeps its sequence of bits.
+        self._bitarray = bitarray.bitarray(initializer, endian='big')
         self.immutable = immutable
         self.modified_length = None
 
